@@ -144,6 +144,30 @@ def float_shim_real(x=0.0):
     return builtins.float(x)
 
 
+def ord_shim(c):
+    from .strs import SymStr
+    if isinstance(c, SymStr):
+        if len(c.e) != 1:
+            raise TypeError("ord() expected a character, but string of length %d found" % len(c.e))
+        e = c.e[0]
+        if isinstance(e, str):
+            return builtins.ord(e)
+        if isinstance(e, z3.ExprRef):
+            return SymInt(e, lo=0, hi=0x10FFFF)
+        raise TypeError("ord() of an opaque numeral token")
+    return builtins.ord(c)
+
+
+def chr_shim(i):
+    from .strs import SymStr
+    if isinstance(i, SymInt):
+        t = z3.simplify(i.t)
+        if z3.is_int_value(t):
+            return builtins.chr(t.as_long())
+        return SymStr((i.t,))
+    return builtins.chr(i)
+
+
 def round_shim(x, nd=None):
     if isinstance(x, (SymInt, SymQ, SymReal)):
         return x.__round__(nd) if nd is not None else x.__round__()
@@ -431,6 +455,8 @@ def std_overrides(real_tower):
         "int": int_shim,
         "float": float_shim_real if real_tower else float_shim,
         "round": round_shim,
+        "ord": ord_shim,
+        "chr": chr_shim,
         "min": min_shim,
         "max": max_shim,
         "str": str_shim,
